@@ -922,6 +922,13 @@ def task_set_determinant(pr, repo):
     pr.explore(ex, thunk, 'Group.set_determinant')
 
 
+def task_average_bounds(pr, repo):
+    # the reported average keeps the bounds: every averaged quantity (buried fraction, desolvation terms, determinants) is the arithmetic
+    # mean of values that satisfy them (C08-AV, 'means' clauses)
+    from . import C08
+    C08.task_average(pr, repo, 2, clauses=('means',))
+
+
 def run(pr, repo):
     ground_facts(pr)
     pr.parallel([(task_scalars, ()), (task_desolvation, ()), (task_reorganization, ()), (task_coulomb_pairs, ()),
@@ -930,7 +937,7 @@ def run(pr, repo):
                  # every swap is undone exactly (C02/C15 obligations on swap_interactions / transfer_determinant)
                  (C02.task_swap, ()), (C02.task_swap_once, ()),
                  # ... and the conformation average, which must leave the conformations' own determinants untouched
-                 (C02.task_average, ()), (C02.task_sequencing, ())])
+                 (C02.task_average, ()), (C02.task_sequencing, ()), (task_average_bounds, ())])
     bounded(pr)
 
 
@@ -946,7 +953,7 @@ def bounded(pr):
     ev, viol, kinds = 0, [], set()
     for name in names:
         mol = native.run_text(native.pdb_lines(name))
-        for cname in mol.conformation_names:
+        for cname in list(mol.conformation_names) + ['AVR']:
             for g in mol.conformations[cname].groups:
                 if not g.titratable and g.residue_type not in p.ions:
                     continue
@@ -958,6 +965,11 @@ def bounded(pr):
                     bad.append('desolvation %r with charge %r' % (g.energy_volume, q))
                 if (q < 0 and g.energy_local < -1e-12) or (q > 0 and g.energy_local > 1e-12):
                     bad.append('local desolvation %r with charge %r' % (g.energy_local, q))
+                if cname == 'AVR':
+                    # entries of equally labelled partners are merged in the average: only the group's own quantities are bounded here
+                    if bad and len(viol) < 3:
+                        viol.append({'what': '%s %s %s: %s' % (name, cname, g.label, '; '.join(bad[:3])), 'replay': None})
+                    continue
                 for d in g.determinants['backbone']:
                     ev += 1
                     kinds.add(('bb', q > 0))
